@@ -14,7 +14,7 @@ from typing import Any
 from vmc import idle_harness as ih
 from vmc import server_harness as sh
 from vmc.checks.common import Program, replay_program, run_programs
-from vmc.engine import Action, EngineExec, MonRuntime, RunConfig, task_outcome
+from vmc.engine import Action, EngineExec, MonRuntime, RunConfig, gate, task_outcome
 from vmc.explore import Execution
 from workflows.events import StartEvent, WorkflowIdleEvent
 
@@ -154,7 +154,8 @@ def execute(ex: Execution, wname: str, backend: str, idle_timeout: float, yieldi
 
 
 # ------------------------------------------------------------------ DBOS lifecycle, two replicas --------------
-def execute_dbos(ex: Execution, n_waits: int, idle_timeout: float, releaser_crashes: bool) -> tuple[Any, list[Any]]:
+def execute_dbos(ex: Execution, n_waits: int, idle_timeout: float, releaser_crashes: bool,
+                 releaser_stalls: bool = False) -> tuple[Any, list[Any]]:
     import sqlite3
 
     import dbos as dbos_standin
@@ -165,6 +166,8 @@ def execute_dbos(ex: Execution, n_waits: int, idle_timeout: float, releaser_cras
     ih.reset()
     v: list[Any] = []
     w = {"stack": "dbos", "releaser_crashes": releaser_crashes}
+    if releaser_stalls:
+        w["releaser_stalls"] = True
     lifecycle_db = sh.fresh_sqlite_path()
     c = sqlite3.connect(lifecycle_db)
     c.executescript(ih.lifecycle_ddl())
@@ -208,6 +211,22 @@ def execute_dbos(ex: Execution, n_waits: int, idle_timeout: float, releaser_cras
 
             e.add_script([Action("clock+121s (beyond CRASH_TIMEOUT_SECONDS)", jump)])
 
+        if releaser_stalls:
+            # replica A is paused right after begin_release() (a frozen container, a long GC pause) and continues
+            # whenever the explorer lets it - possibly after another replica took the run over
+            orig_mark = a.idle._await_and_mark_released
+
+            async def stalled(run_id: str, external: Any) -> None:
+                await gate("replica A continues after its pause")
+                await orig_mark(run_id, external)
+
+            a.idle._await_and_mark_released = stalled  # type: ignore[method-assign]
+
+            def jump2() -> None:
+                e.loop.advance(121.0)
+
+            e.add_script([Action("clock+121s (beyond CRASH_TIMEOUT_SECONDS)", jump2)])
+
         def on_quiescent(h: Any) -> None:
             idle_announcements = sum(1 for ev in h.published if isinstance(ev, WorkflowIdleEvent))
             while state["scripts_added"] < min(n_waits, idle_announcements):
@@ -242,7 +261,7 @@ def execute_dbos(ex: Execution, n_waits: int, idle_timeout: float, releaser_cras
         e.drive()
         hd = ih.query_handler(e.loop, store)
         ticks = ih.tick_types(e.loop, store)
-        desc = f"[dbos x2] waits={n_waits} idle_timeout={idle_timeout} crash={releaser_crashes} schedule {ex.labels}"
+        desc = f"[dbos x2] waits={n_waits} idle_timeout={idle_timeout} crash={releaser_crashes} stall={releaser_stalls} schedule {ex.labels}"
         if any(n > 1 for n in ih.LIVE["max"].values()):
             v.append(("two_live_control_loops_for_one_run", w, f"{desc}: {ih.LIVE['max']}"))
         n_releases = sum(1 for td in ticks if td.get("type") == "idle_release")
@@ -284,6 +303,8 @@ def programs(tier: str) -> list[Program]:
         for crash in (False, True):
             ps.append(Program(f"dbos_two_replicas/waits={n}/releaser_crashes={crash}", {"waits": n, "crash": crash},
                               (lambda ex, n=n, crash=crash: execute_dbos(ex, n, 5.0, crash)), max_dev=(3 if q else 5)))
+        ps.append(Program(f"dbos_two_replicas/waits={n}/releaser_stalls", {"waits": n, "stall": True},
+                          (lambda ex, n=n: execute_dbos(ex, n, 5.0, False, True)), max_dev=(3 if q else 5)))
     return ps
 
 
